@@ -1022,7 +1022,10 @@ class Enum(Generic, PrimitiveType):
   def to_json(self, **kwargs: typing.Any) -> typing.Dict[str, typing.Any]:
     return self.to_json_dict(
         fields=dict(
-            default=(self.default, MISSING_VALUE),
+            # NOTE: `default` is a required argument of `Enum.__init__`, thus
+            # it is always serialized.
+            default=(self.default, None) if MISSING_VALUE == self.default
+            else (self.default, MISSING_VALUE),
             values=(self._values, None),
             frozen=(self._frozen, False),
         ),
